@@ -436,8 +436,8 @@ class ReadOnlyHistory(RuleBasedStateMachine):
         self.doc = doc
         try:
             self.session = Session(doc)
-        except Bad:
-            self.KV['fail']({'doc': doc, 'ops': []})
+        except Bad as b_:
+            self.KV['fail']({'doc': doc, 'ops': []}, b_)
             raise AssertionError('init')
 
     @rule(o=ops())
@@ -447,8 +447,8 @@ class ReadOnlyHistory(RuleBasedStateMachine):
         self.history.append(o)
         try:
             self.tally.add(o, self.session.step(o))
-        except Bad:
-            self.KV['fail']({'doc': self.doc, 'ops': list(self.history)})
+        except Bad as b_:
+            self.KV['fail']({'doc': self.doc, 'ops': list(self.history)}, b_)
             raise AssertionError('read-only violated')
 
     def teardown(self):
